@@ -314,6 +314,8 @@ pub enum Op {
     /// buffer address, new content — legal for the owner of a value, and the library must not have
     /// remembered anything about the old content under that address
     MutateRetained(usize),
+    /// the host makes a deep copy of a value it holds (equal content, another buffer) and holds that too
+    DupRetained(usize),
     /// retained[i] + retained[j] applied by the host
     HostAdd(usize, usize, bool),
     Lookup(String),
